@@ -25,10 +25,12 @@ CLAIMED = {
  "C07": ("exploration", "4.1, 5 C07", "seeded ledger histories with all derived views recomputed from the reference model",
          "After random steps: per-address unspent index, address count, metadata, confirmed and predicted balances, history of outputs (creating/spending block and transaction), per-address output history, transaction status, transaction count and block queries by seq/hash/range/last-N are compared with values derived from the model's chain and pool; restarts in the history exercise index/history re-initialisation.",
          "Paging not generated (C29). Balance queries while the pool holds a stale transaction may legitimately fail and are skipped."),
+ "C08": ("fault_enumeration", "4.4, 5 C08", "crash-point enumeration over recorded bolt file images (deterministic simulation with fault injection)",
+         "For each seeded life-cycle script every commit boundary is restarted from (exhaustive per script), plus states inside commits that bolt's write order can leave (ordered prefixes and subsets of dirty data pages, torn pages, torn meta page); restart runs the real start-up sequence with/without forced verification and reset, must return within one simulated hour (deadlocks are detected on the fake clock), must pass CheckDatabase, and after re-delivery of the script the logical database content must equal the never-crashed twin's.",
+         "Disk model: ordered-prefix within the data phase, data phase strictly before the meta page (bolt's fdatasync order), file grown before pages are written. Crash during bolt's initial 4-page file creation is not modelled (stated in DESIGN). Follower node; scripts of 1-12 blocks."),
 }
 
 NA = {
- "C08": "check not built yet in this session (planned: E4 page-image crash enumeration)",
  "C09": "pure function of the transaction bytes: no schedule, clock, fault or second party in the statement, so simulation would only be input generation renamed",
  "C10": "check not built yet in this session (planned: Byzantine relay in E1)",
  "C11": "pure function of (transaction, inputs, head time, parameters); nothing for a simulator to schedule or fault",
@@ -76,10 +78,10 @@ def main():
     json.dump(m, open(os.path.join(V, "MANIFEST.json"), "w"), indent=1)
     print("claimed", len(checks), "not_applicable", len(NA))
 
-ENGINE = {}
+ENGINE = {"C08": "e4 (in e1 binary)"}
 ADD_ONLY = True
 ENGINES = [
- dict(name="e1", path="/verif/harness/e1", serves_properties=["C01", "C02", "C03", "C04", "C05", "C06", "C07"],
+ dict(name="e1", path="/verif/harness/e1", serves_properties=["C01", "C02", "C03", "C04", "C05", "C06", "C07", "C08"],
       kind_free_text="single-goroutine discrete-event simulation of 1-3 real visor+bolt nodes on the synctest fake clock, shadowed by the reference ledger model"),
 ]
 
